@@ -222,6 +222,12 @@ Definition stops_of (l : list ev) : list cls :=
   flat_map (fun e => match e with EStop c => [c] | ERemain c => [c] | _ => [] end) l.
 Definition remains_of (l : list ev) : list cls :=
   flat_map (fun e => match e with ERemain c => [c] | _ => [] end) l.
+Definition starts_of (l : list ev) : list cls :=
+  flat_map (fun e => match e with EStart c => [c] | _ => [] end) l.
+Definition died_of (l : list ev) : list cls :=
+  flat_map (fun e => match e with EDied c => [c] | _ => [] end) l.
+(* occurrences of class c *)
+Definition cntc (c : cls) (l : list cls) : nat := length (filter (cls_eqb c) l).
 Definition saves_of (l : list ev) : nat :=
   length (filter (fun e => match e with ESave => true | _ => false end) l).
 
@@ -263,7 +269,9 @@ Record obs : Type := mkObs {
   ob_status : Z;             (* returned exit status; -1: an exception escaped run() *)
   ob_stops : list Z;         (* class codes in the order the actors stopped *)
   ob_saves : Z;              (* completed state saves *)
-  ob_left : Z                (* actors still registered after run() returned *)
+  ob_left : Z;               (* actors still registered after run() returned *)
+  ob_starts : list Z;        (* class codes in the order the actors were registered *)
+  ob_died : list Z           (* class codes of the actors that died in on_start (any order) *)
 }.
 
 Definition model_obs (o : oracle) : obs :=
@@ -271,7 +279,9 @@ Definition model_obs (o : oracle) : obs :=
   mkObs (match r with Val z => z | Exc _ => (-1)%Z end)
         (map cls_code (stops_of (events s)))
         (Z.of_nat (saves_of (events s)))
-        (Z.of_nat (length (reg s))).
+        (Z.of_nat (length (reg s)))
+        (map cls_code (starts_of (events s)))
+        (map cls_code (died_of (events s))).
 
 Fixpoint zlist_eqb (a b : list Z) : bool :=
   match a, b with
@@ -280,9 +290,20 @@ Fixpoint zlist_eqb (a b : list Z) : bool :=
   | _, _ => false
   end.
 
+Definition zcount (x : Z) (l : list Z) : nat := length (filter (Z.eqb x) l).
+Definition zlist_perm_b (a b : list Z) : bool :=
+  forallb (fun x => Nat.eqb (zcount x a) (zcount x b)) (a ++ b).
+
 Definition obs_eqb (a b : obs) : bool :=
   (ob_status a =? ob_status b)%Z && zlist_eqb (ob_stops a) (ob_stops b)
-  && (ob_saves a =? ob_saves b)%Z && (ob_left a =? ob_left b)%Z.
+  && (ob_saves a =? ob_saves b)%Z && (ob_left a =? ob_left b)%Z
+  && zlist_eqb (ob_starts a) (ob_starts b) && zlist_perm_b (ob_died a) (ob_died b).
+
+(* monitor: every registration is matched by a death in on_start or a stop, nothing twice *)
+Definition balance_ok_b (b : obs) : bool :=
+  forallb (fun x => Nat.eqb (zcount x (ob_starts b)) (zcount x (ob_died b) + zcount x (ob_stops b))
+                    && (zcount x (ob_stops b) <=? 1))
+          (ob_starts b ++ ob_died b ++ ob_stops b).
 
 (* specification-side characterisations used by the theorems (no reference to the run) *)
 Definition is_intr (o : outcome) : bool := match o with OIntr | OLate => true | _ => false end.
@@ -345,4 +366,5 @@ Definition monitor_core_b (o : oracle) (status : Z) (stops : list cls) (saves le
   && ((status =? 0) || (status =? 1))%Z.
 
 Definition monitor_ok_b (o : oracle) (b : obs) : bool :=
-  monitor_core_b o (ob_status b) (map cls_of_code (ob_stops b)) (ob_saves b) (ob_left b).
+  monitor_core_b o (ob_status b) (map cls_of_code (ob_stops b)) (ob_saves b) (ob_left b)
+  && balance_ok_b b.
